@@ -145,9 +145,12 @@ def gen_atom(rng, today, depth, feats):
         neg = rng.random() < 0.25
         cs = rng.random() < 0.3
         q = rng.choice("'\"")
+        oq = "\"" if q == "'" else "'"
         words = []
         for _ in range(rng.randint(1, 3)):
-            w = rng.choice(IDS + ["Foo", "a-b", "x.y", "a/b", "k:v", "#t", "50%", "a_b", "(z)", "it" + ("\"" if q == "'" else "'") + "s", "2024-01-01", "*", "=", "~"])
+            w = rng.choice(IDS + ["Foo", "a-b", "x.y", "a/b", "k:v", "#t", "50%", "a_b", "(z)", "it" + ("\"" if q == "'" else "'") + "s", "2024-01-01", "*", "=", "~"]
+                           # the other quote character at the very start / end of a word (and so, often, of the whole description)
+                           + [oq + "tis", "n" + oq, oq + "foo" + oq, oq])
             words.append(w)
         val = " ".join(words)
         feats.add("desc" + ("_c" if cs else "") + ("!" if neg else ""))
@@ -500,7 +503,7 @@ def classify(f: C.Failure, entry: dict) -> bool:
 
 RULE = (
     "query structures generated from the abstract syntax (every select form, filter trees to depth 5 over every atom kind, both clause "
-    "orders, date forms under a frozen clock on 18 boundary days) rendered to text; boundary enumerations (64 priority spellings, all 63 "
+    "orders, descriptions with the other quote character inside and at their edges, date forms under a frozen clock on 18 boundary days) rendered to text; boundary enumerations (64 priority spellings, all 63 "
     "kind subsets, all select fields x count, 16 relative offsets x 18 days); build_zorg_query vs expected structure vs Lean model; "
     "plus the calendar core exhaustively: all 10^6 six-digit strings through is_short_date_spec vs the real calendar (20YY) vs Date.parseShort, "
     "long dates of 8 boundary years x months 0-13 x days 0-32 through from_date_spec vs calendar vs Date.parseLong; "
